@@ -557,7 +557,11 @@ def _set_visible_scopes_for_module(module):
             extra_visible_scopes.append(
                 ir_data.CanonicalName(module_file=foreign_import.file_name.text)
             )
-    return {"visible_scopes": (self_scope,) + tuple(extra_visible_scopes)}
+    return {
+        # Names in module-level attributes are looked up in the module itself.
+        "current_scope": self_scope,
+        "visible_scopes": (self_scope,) + tuple(extra_visible_scopes),
+    }
 
 
 def _set_visible_scopes_for_attribute(attribute, field, visible_scopes):
